@@ -135,6 +135,14 @@ CHECKS = {
         "evaluates the same contract plus unchanged type / ring and part structure on the logged coordinates, exactly. For 6 real EPSG pairs TLC decides the structure, vertex images and the there-and-back "
         "clause rest on a logged pyproj oracle.",
    ref="5/C07", note=TB + "pyproj is the oracle for real projections (the statement names the projection library); accuracy off the lattice is not covered"),
+ "C09": dict(
+   technique="TLA+ history model of xarray geo-registration (XrGeo: selection algebra over positional slicing + value operations) model-checked by TLC; every TLC history replayed with real xarray and the recovered GeoBox validated by TLC; reprojection outputs validated through logged object-level comparisons",
+   text="The model reduces any history of positional slicing (head, tail, middle, strided, reversed, reversed-strided, to length 1, negative offsets), arithmetic, astype and pickling to a per-axis selection "
+        "index_k = start + k*step into the original axis; TLC explores all histories to depth 2 (quick) / 3 (thorough) from shapes incl. single row / column and emits them with 7 base grids (axis labels, "
+        "pixel labels + encoded transform for rotated / sheared grids, GCPs) and 5 container / backend / dimension-order variants. Each is replayed with real xarray; TLC checks on the GeoBox recovered through "
+        ".odc: present, original CRS, array shape, equal to the original after value-only histories, the centre of every corner pixel at the world location the model prescribes, whole pixel footprints for unit "
+        "steps, and agreement with the coordinate labels (exact, half-pixel lattice). Reprojection: 3x4 CRS pairs x DataArray/Dataset x numpy/dask x geobox/crs targets x rotated sources - recovered GeoBox = requested, CRS, no stale attributes.",
+   ref="5/C09", note=TB + "reprojection clauses are booleans computed from the real objects (GeoBox comparison up to 1e-9 pixel, CRS ==, attribute inspection); non-affine GCPs not covered"),
 }
 
 NOT_YET = "check not built yet (work in progress); see DESIGN.md"
